@@ -6,7 +6,11 @@
 //   abs|rel|relabs|mixed <prec> <prec2> <n> a_1..a_n b_1..b_n        (a: reference '.ref', b: result '.res')
 //   area none|linear <prec> <nA> tA_1.. vA_1.. <nB> tB_1.. vB_1..
 //   analytical <eps> <n> v_1..v_n f_1..f_n      (v: computed value, f: value of the analytical formula)
+//   analytical_t ...                            (same, the formula also uses the time variable 't')
 //   reffile <eps> <n> v_1..v_n <m> r_1..r_m     (r: reference column, period i is compared with r_i)
+//   reffile_f ...                               (same, through the constructor taking a formula, here "$2")
+// Period i is checked as the time step [i-1, i] (t = i-1, dt = 1): the reference of an analytical
+// test is the formula at the END of the time step, f(t+dt).
 // stdout, one line per request:
 //   tfel-check : "ok" | "fail <number of failed lines>" | "throw"       (area: "ok" | "fail" | "throw")
 //   mtest      : "ok" | "fail <number of failed periods>" | "throw <period>"
@@ -21,6 +25,7 @@
 #include <iostream>
 #include <memory>
 #include <sstream>
+#include <stdexcept>
 #include <string>
 #include <vector>
 
@@ -103,11 +108,25 @@ static std::string failed_lines(const std::string& log) {
   return n;
 }
 
+// evolution r(t) = values[t] for the integral times 0..n-1 (clamped outside: a formula evaluated at
+// the wrong time then silently reads the value of another period, as a real evolution would)
 struct Table final : mtest::Evolution {
   std::vector<double> values;
   mtest::real operator()(const mtest::real t) const override {
-    return values.at(static_cast<std::size_t>(t));
+    if (values.empty()) throw std::runtime_error("empty table");
+    long long i = std::llround(t);
+    if (i < 0) i = 0;
+    if (i >= static_cast<long long>(values.size())) i = static_cast<long long>(values.size()) - 1;
+    return values[static_cast<std::size_t>(i)];
   }
+  bool isConstant() const override { return false; }
+  void setValue(const mtest::real) override {}
+  void setValue(const mtest::real, const mtest::real) override {}
+};
+
+// evolution tt(t) = t
+struct Clock final : mtest::Evolution {
+  mtest::real operator()(const mtest::real t) const override { return t; }
   bool isConstant() const override { return false; }
   void setValue(const mtest::real) override {}
   void setValue(const mtest::real, const mtest::real) override {}
@@ -191,7 +210,9 @@ int main(const int argc, const char* const* const argv) {
         c.setParameters(c1, c2, from_bits(p1), 0., ci, "none", false, ci, ii);
         c.compare();
         std::cout << (c.hasSucceed() ? "ok" : "fail") << "\n";
-      } else if (kind == "analytical" || kind == "reffile") {
+      } else if (kind == "analytical" || kind == "analytical_t" || kind == "reffile" ||
+                 kind == "reffile_f") {
+        const bool reffile = (kind == "reffile") || (kind == "reffile_f");
         std::string p1;
         std::size_t n, m;
         std::vector<double> v, r;
@@ -200,7 +221,7 @@ int main(const int argc, const char* const* const argv) {
           continue;
         }
         m = n;
-        if (kind == "reffile" && !(is >> m)) {
+        if (reffile && !(is >> m)) {
           std::cout << "bad-op\n";
           continue;
         }
@@ -212,12 +233,16 @@ int main(const int argc, const char* const* const argv) {
         auto get = [&v, &period](const mtest::CurrentState&) { return v.at(period); };
         mtest::CurrentState s;
         std::unique_ptr<mtest::MTest::UTest> test;
-        if (kind == "analytical") {
+        if (!reffile) {
           mtest::EvolutionManager evm;
           auto tab = std::make_shared<Table>();
           tab->values = r;
           evm.insert({"r", tab});
-          test.reset(new mtest::AnalyticalTest("r", "x", get, evm, from_bits(p1)));
+          evm.insert({"tt", std::make_shared<Clock>()});
+          // at the end of the step [i-1, i]: t = tt = i (exact small integers), so 1+t-tt == 1 and
+          // r*(1+t-tt) == r bit for bit; with 't' or 'tt' taken at another time the factor is not 1
+          const char* const formula = (kind == "analytical") ? "r" : "r*(1+t-tt)";
+          test.reset(new mtest::AnalyticalTest(formula, "x", get, evm, from_bits(p1)));
         } else {
           std::vector<double> t(m);
           for (std::size_t i = 0; i != m; ++i) t[i] = double(i);
@@ -227,13 +252,18 @@ int main(const int argc, const char* const* const argv) {
             std::cout << "io-mismatch\n";
             continue;
           }
-          test.reset(new mtest::ReferenceFileComparisonTest(d, 2u, "x", get, from_bits(p1)));
+          if (kind == "reffile") {
+            test.reset(new mtest::ReferenceFileComparisonTest(d, 2u, "x", get, from_bits(p1)));
+          } else {
+            test.reset(new mtest::ReferenceFileComparisonTest(d, mtest::EvolutionManager{}, "$2", "x",
+                                                              get, from_bits(p1)));
+          }
         }
         bool thrown = false;
         for (; period != n; ++period) {
           try {
-            // AnalyticalTest evaluates its formula at t+dt: the table is indexed by the period
-            test->check(s, double(period), 0., static_cast<unsigned int>(period));
+            // the time step [period-1, period]: AnalyticalTest evaluates its formula at t+dt
+            test->check(s, double(period) - 1., 1., static_cast<unsigned int>(period));
           } catch (std::exception&) {
             thrown = true;
             break;
